@@ -141,10 +141,35 @@ PROPS["C11"] = dict(
                 "array variants (f4/f8/i8/list/strided/byte-swapped) element-for-element, copies / deep copies / pickles.",
     limit_quick=90)
 
+PROPS["C14"] = dict(
+    level="proof", needs_ext=True,
+    technique="contract-based deductive verification of the bin bookkeeping over C05's reverse-index contract (own VC generator, z3 "
+              "with a process portfolio for quantified array queries); numpy's mean/std/median/sum definitions assumed; bounded "
+              "statement oracle as labelled stand-in",
+    level_text="Binner.calc_stats is verified bin by bin for every combination of second variable / weights / binning mode (8 "
+               "configurations, 18 contracts - one per independent group of output arrays): given a valid reverse index, every "
+               "reported cell is the sentinel for an empty bin and otherwise the stated statistic (mean, deviation, median, "
+               "standard error for >= 2 members, summed weight, weighted mean / deviation / both error estimates through wmom's "
+               "proved contract) of exactly the members rev[rev[k]:rev[k+1]]; bin edges and centres are min + k*binsize. "
+               "_hist_by_num is verified to leave a valid reverse index whose data area holds the original indices in sorted "
+               "order and whose low/high are the first/last member of each bin; _merge_last is verified to turn it into the "
+               "index with the last two bins united (overlapping in-place slice moves modelled); Binner._do_hist is verified "
+               "against both engines' contracts.",
+    level_note="Trusted: esvc, z3; numpy mean/std/median/sum are uninterpreted functions of the member values (their definitions are "
+               "assumed); wmom is used through its proved 1-d contract; the bin number of rank k in _hist_by_num, trunc(k/nperbin), is "
+               "abstract: its monotonicity is a stated assumption and 'exactly nperbin ranks per bin' (k // nperbin arithmetic) is "
+               "covered by the bounded oracle only; the error conventions of single-member bins (err = the value itself) are outside "
+               "the statement (it constrains the standard error for >= 2 members) and are not constrained; numpy's overlapping "
+               "slice assignment behaves as copy-then-store (assumed).",
+    explanation="Proved: 18 calc_stats contracts, _hist_by_num (2), _merge_last, _do_hist (2). Bounded (labelled): per-bin quantities "
+                "from Binner and histogram(more=True, weights=) against direct computation on members found by value; equal-occupancy "
+                "bins against a direct grouping of the sorted data, mergelast on and off.",
+    limit_quick=60)
+
 for _k in range(1, 21):
     PROPS.setdefault("C%02d" % _k, dict(level="other", needs_ext=True, explanation="see DESIGN.md section 8"))
 
 
-CLAIMED = {"C20", "C02", "C05", "C06", "C16", "C18", "C11"}
+CLAIMED = {"C20", "C02", "C05", "C06", "C16", "C18", "C11", "C14"}
 NOT_APPLICABLE = {("C%02d" % k): "check not built yet (implementation in progress; plan in DESIGN.md section 8)"
                   for k in range(1, 21) if ("C%02d" % k) not in CLAIMED}
